@@ -19,9 +19,27 @@ use emit_traceparent::{in_sampled_trace_filter, InSampledTraceFilter, Traceparen
 use crate::tree::Case;
 
 pub type Sampler = Box<dyn Fn(&SpanCtxt) -> bool + Send + Sync>;
+/// `TraceparentFilter::new()` and `TraceparentFilter::new_with_sampler(s)` are different types; this only
+/// dispatches to whichever the case installs.
+pub enum TpFilter {
+    /// `TraceparentFilter::new()` — what `emit_traceparent::setup()` installs
+    Plain(TraceparentFilter),
+    /// `TraceparentFilter::new_with_sampler(table)` — what `setup_with_sampler` installs
+    Sampling(TraceparentFilter<Sampler>),
+}
+
+impl emit::Filter for TpFilter {
+    fn matches<E: ToEvent>(&self, evt: E) -> bool {
+        match self {
+            TpFilter::Plain(f) => f.matches(evt),
+            TpFilter::Sampling(f) => f.matches(evt),
+        }
+    }
+}
+
 pub type Rt = Runtime<
     Recorder,
-    And<TraceparentFilter<Sampler>, Option<InSampledTraceFilter>>,
+    And<TpFilter, Option<InSampledTraceFilter>>,
     TraceparentCtxt<ThreadLocalCtxt>,
     CountingClock,
     CounterRng,
@@ -193,7 +211,10 @@ pub fn build(case: &Case) -> (Rt, Recorder, Log) {
     };
     let rt = Runtime::new()
         .with_emitter(rec.clone())
-        .with_filter(And::new(TraceparentFilter::new_with_sampler(sampler), case.in_sampled.map(in_sampled_trace_filter)))
+        .with_filter(And::new(
+            if case.no_sampler { TpFilter::Plain(TraceparentFilter::new()) } else { TpFilter::Sampling(TraceparentFilter::new_with_sampler(sampler)) },
+            case.in_sampled.map(in_sampled_trace_filter),
+        ))
         .with_ctxt(TraceparentCtxt::new(ThreadLocalCtxt::new()))
         .with_clock(CountingClock(AtomicU64::new(0)))
         .with_rng(CounterRng { next: AtomicU64::new(case.rng) });
